@@ -11,7 +11,6 @@ impl DDSData {
 }
 #[verifier::external_body] #[derive(Clone, Copy)] pub struct Endianness { x: u8 }     // speedy::Endianness
 #[verifier::external_body] #[derive(Clone, Copy)] pub struct StdDuration { x: u8 }    // std::time::Duration
-#[verifier::external_body] pub struct FragmentNumberSet { x: u8 }                     // never inspected here
 // the topic name (String): only cloned "for debugging"
 #[verifier::external_body] pub struct TopicName { x: u8 }
 impl TopicName {
@@ -19,8 +18,6 @@ impl TopicName {
     #[verifier::external_body]
     pub fn clone(&self) -> (r: Self) ensures r == *self { unimplemented!() }
 }
-// RtpsReaderProxy.frags_requested: BTreeMap<SequenceNumber, BitVec> (NACKFRAG bookkeeping, C05)
-#[verifier::external_body] pub struct FragsRequested { x: u8 }
 
 // ---- cfg!(debug_assertions): either value (the block it guards only logs) -----------------------
 // `cfg!(debug_assertions)` is a compile-time constant that depends on the build profile; the unit
